@@ -139,10 +139,13 @@ impl<E: Effect> Repl<E> {
             .cloned()
             .unwrap_or_else(Type::nil);
 
-        // Update REPL state
+        // Update REPL state. A line that runs no code (type definitions only) yields no new
+        // result: the previous result - and its type - keeps flowing into the next line.
         self.bindings = bindings;
         self.module_cache = module_cache;
-        self.last_result_type = result_type;
+        if !instructions.is_empty() {
+            self.last_result_type = result_type;
+        }
 
         // Only create function wrapper if we have instructions to execute
         let function_index = if !instructions.is_empty() {
